@@ -78,6 +78,12 @@ package url
 //@ func isNormalizedWindowsDriveLetter
 //@   ensures result == (len(s) == 2 && specIsAlpha(s[0]) && s[1] == ':')   [C01]
 
+//@ func isSingleDotPathSegment
+//@   ensures result == (s == "." || specToLower(s) == "%2e")   [C01]
+
+//@ func isDoubleDotPathSegment
+//@   ensures result == (s == ".." || specToLower(s) == ".%2e" || specToLower(s) == "%2e." || specToLower(s) == "%2e%2e")   [C01]
+
 //@ func startsWithAWindowsDriveLetter
 //@   ensures result == (len(s) >= 2 && specIsAlpha(s[0]) && (s[1] == ':' || s[1] == '|')
 //@                      && (len(s) == 2 || s[2] == '/' || s[2] == '\\' || s[2] == '?' || s[2] == '#'))   [C01]
@@ -301,6 +307,7 @@ package url
 //@ func (*parser).handleError
 //@   requires p != nil && u != nil
 //@   modifies u.validationErrors, u.validationErrors[..]
+//@   ensures arr(u.validationErrors) == old(arr(u.validationErrors)) || fresh(u.validationErrors)
 //@   ensures (result != nil) == (failure || p.opts.failOnValidationError)   [C15]
 //@   ensures result != nil ==> fresh(result) && isVE(result) && errType(result) == errorType && errFailure(result) == failure   [C15]
 //@   ensures !p.opts.reportValidationErrors ==> u.validationErrors == old(u.validationErrors)   [C15]
@@ -310,6 +317,7 @@ package url
 //@ func (*parser).handleErrorWithDescription
 //@   requires p != nil && u != nil
 //@   modifies u.validationErrors, u.validationErrors[..]
+//@   ensures arr(u.validationErrors) == old(arr(u.validationErrors)) || fresh(u.validationErrors)
 //@   ensures (result != nil) == (failure || p.opts.failOnValidationError)   [C15]
 //@   ensures result != nil ==> fresh(result) && isVE(result) && errType(result) == errorType && errFailure(result) == failure   [C15]
 //@   ensures !p.opts.reportValidationErrors ==> u.validationErrors == old(u.validationErrors)   [C15]
@@ -319,6 +327,7 @@ package url
 //@ func (*parser).handleWrappedError
 //@   requires p != nil && u != nil
 //@   modifies u.validationErrors, u.validationErrors[..]
+//@   ensures arr(u.validationErrors) == old(arr(u.validationErrors)) || fresh(u.validationErrors)
 //@   ensures (result != nil) == (failure || p.opts.failOnValidationError)   [C15]
 //@   ensures result != nil ==> fresh(result) && isVE(result) && errType(result) == errorType && errFailure(result) == failure   [C15]
 //@   ensures !p.opts.reportValidationErrors ==> u.validationErrors == old(u.validationErrors)   [C15]
@@ -395,6 +404,7 @@ package url
 //@   requires p != nil
 //@   modifies p.p, p.opaque, p.p[..]
 //@   ensures !p.opaque && len(p.p) == old(len(p.p)) + 1 && p.p[len(p.p) - 1] == segment
+//@   ensures arr(p.p) == old(arr(p.p)) || fresh(p.p)
 //@   ensures forall k int :: 0 <= k && k < old(len(p.p)) ==> p.p[k] == old(p.p[k])
 //@ func (*path).init
 //@   requires p != nil
@@ -415,6 +425,7 @@ package url
 //@   ensures p == nil ==> result == nil
 //@   ensures p != nil ==> result != nil && fresh(result) && result.opaque == p.opaque && len(result.p) == len(p.p)   [C13]
 //@   ensures p != nil && p.p != nil ==> fresh(result.p) && result.p != nil   [C13]
+//@   ensures p != nil && p.p == nil ==> result.p == nil
 //@   ensures p != nil ==> (forall k int :: 0 <= k && k < len(p.p) ==> result.p[k] == p.p[k])   [C13]
 //@ func (*path).String
 //@   requires p != nil && (p.opaque ==> len(p.p) >= 1)
@@ -494,3 +505,111 @@ package url
 
 //@ func (*parser).percentEncodeInvalidRune
 //@   requires p != nil && setOK(tr)
+
+// ---------------------------------------------------------------------------------------------------------------
+// hostparser.go
+// ---------------------------------------------------------------------------------------------------------------
+
+//@ func (*parser).parseHost
+//@   requires okOpts(p) && okOpts(parser) && u != nil
+//@   modifies u.validationErrors, u.validationErrors[..], u.isIPv4, u.isIPv6
+//@   ensures arr(u.validationErrors) == old(arr(u.validationErrors)) || fresh(u.validationErrors)
+
+// ---------------------------------------------------------------------------------------------------------------
+// url.go: Clone
+// ---------------------------------------------------------------------------------------------------------------
+
+//@ func cloneStringPointer
+//@   ensures s == nil ==> result == nil
+//@   ensures s != nil ==> result != nil && fresh(result) && *result == *s   [C13]
+
+//@ func (*SearchParams).Clone
+//@   requires spOK(s)
+//@   ensures result != nil && fresh(result) && fresh(result.params) && result.url == s.url && len(result.params) == len(s.params)   [C13]
+//@   ensures forall k int :: 0 <= k && k < len(s.params) ==> (result.params[k] != nil && fresh(result.params[k])
+//@           && result.params[k].Name == s.params[k].Name && result.params[k].Value == s.params[k].Value)   [C13]
+//@   loop 1 modifies sp.params[..]
+//@   loop 1 invariant sp != nil && fresh(sp) && fresh(sp.params) && sp.url == s.url && len(sp.params) == len(s.params) && sp.params != nil
+//@   loop 1 invariant forall k int :: 0 <= k && k < $i ==> (sp.params[k] != nil && freshL(sp.params[k])
+//@           && sp.params[k].Name == s.params[k].Name && sp.params[k].Value == s.params[k].Value)
+
+//@ func (*Url).Clone
+//@   requires wf(u)
+//@   ensures result != nil && fresh(result) && wf(result)   [C13]
+//@   ensures result.path != u.path && fresh(result.path) && (u.path.p != nil ==> fresh(result.path.p)) && (u.path.p == nil ==> result.path.p == nil)   [C13]
+//@   ensures (u.host == nil) == (result.host == nil) && (u.host != nil ==> fresh(result.host) && *result.host == *u.host)   [C13]
+//@   ensures (u.port == nil) == (result.port == nil) && (u.port != nil ==> fresh(result.port) && *result.port == *u.port)   [C13]
+//@   ensures (u.query == nil) == (result.query == nil) && (u.query != nil ==> fresh(result.query) && *result.query == *u.query)   [C13]
+//@   ensures (u.fragment == nil) == (result.fragment == nil) && (u.fragment != nil ==> fresh(result.fragment) && *result.fragment == *u.fragment)   [C13]
+//@   ensures result.scheme == u.scheme && result.username == u.username && result.password == u.password
+//@           && result.decodedPort == u.decodedPort && result.parser == u.parser && result.isIPv4 == u.isIPv4 && result.isIPv6 == u.isIPv6   [C13]
+//@   ensures result.path.opaque == u.path.opaque && len(result.path.p) == len(u.path.p)
+//@           && (forall k int :: 0 <= k && k < len(u.path.p) ==> result.path.p[k] == u.path.p[k])   [C13]
+//@   ensures (u.searchParams == nil) == (result.searchParams == nil)
+//@           && (u.searchParams != nil ==> fresh(result.searchParams) && result.searchParams.url == result)   [C13]
+
+// ---------------------------------------------------------------------------------------------------------------
+// parser.go: BasicParser (DESIGN section 4). Layer L1 (safety, termination) and L2 (record invariant, frames).
+// Precondition derived from the call sites: Parse/ParseRef/(*Url).Parse pass url == nil and NoState; the setters pass
+// their receiver, no base, and one of seven override states.
+// ---------------------------------------------------------------------------------------------------------------
+
+//@ func (*parser).BasicParser
+//@   requires okOpts(p)
+//@   requires baseUrl != nil ==> wf(baseUrl)
+//@   requires url == nil ==> stateOverride == NoState
+//@   requires url != nil ==> (wf(url) && baseUrl == nil && (stateOverride == StateSchemeStart || stateOverride == StateHost
+//@            || stateOverride == StateHostname || stateOverride == StatePort || stateOverride == StatePathStart
+//@            || stateOverride == StateQuery || stateOverride == StateFragment))
+//@   requires stateOverride == StateQuery ==> url.query != nil
+//@   requires stateOverride == StateFragment ==> url.fragment != nil
+//@   requires (stateOverride == StatePathStart || stateOverride == StateHost || stateOverride == StateHostname) ==> !url.path.opaque
+//@   modifies url.*, url.path.*, url.path.p[..], url.validationErrors[..]
+//@   ensures (url == nil && result1 == nil) ==> (result0 != nil && fresh(result0) && wf(result0))   [C02,C04]
+//@   ensures url != nil ==> wf(url)   [C02,C04]
+//@   ensures url != nil ==> (result0 == url || result0 == nil)
+//@   loop 1 modifies url.*, url.path.*, url.path.p[..], url.validationErrors[..], base.path.*, base.path.p[..], input.pointer, input.eof, bufv(buffer)
+//@   loop 1 invariant url != nil && url == pre(url) && url.parser == p
+//@   loop 1 invariant old(url) == nil ==> fresh(url)
+//@   loop 1 invariant old(url) != nil ==> url == old(url)
+//@   loop 1 invariant url.path != nil && (url.path == pre(url.path) || (base != nil && url.path == base.path))
+//@   loop 1 invariant old(url) == nil ==> fresh(url.path)
+//@   loop 1 invariant old(url) != nil ==> (url.path == old(url.path) && (url.path.opaque ==> len(url.path.p) >= 1))
+//@   loop 1 invariant cur(input) && !input.eof && fresh(input) && input == pre(input)
+//@   loop 1 invariant (baseUrl == nil) == (base == nil) && base == pre(base)
+//@   loop 1 invariant base != nil ==> (fresh(base) && base.path != nil && fresh(base.path) && base.path == pre(base.path))
+//@   loop 1 invariant base != nil ==> (base.path.p == nil || fresh(base.path.p))
+//@   loop 1 invariant (base != nil && url.path != base.path) ==> (base.path.opaque ==> len(base.path.p) >= 1)
+//@   loop 1 invariant base != nil ==> (arr(base.path.p) == pre(arr(base.path.p)) || freshL(base.path.p))
+//@   loop 1 invariant base != nil ==> wfDistinct(base)
+//@   loop 1 invariant (stateOverridden && (state == StatePath || state == StatePathStart)) ==> !url.path.opaque
+//@   loop 1 invariant base != nil ==> (base.parser == baseUrl.parser && wfPort(base))
+//@   loop 1 invariant 1 <= state && state <= 21
+//@   loop 1 invariant stateOverridden ==> (old(url) != nil && base == nil)
+//@   loop 1 invariant stateOverridden ==> (state == StateSchemeStart || state == StateScheme || state == StateHost || state == StateHostname
+//@            || state == StateFileHost || state == StatePort || state == StatePathStart || state == StatePath || state == StateQuery || state == StateFragment)
+//@   loop 1 invariant (state == StateRelative || state == StateRelativeSlash || state == StateSpecialRelativeOrAuthority) ==> base != nil
+//@   loop 1 invariant state == StateQuery ==> url.query != nil
+//@   loop 1 invariant (state == StateQuery && !stateOverridden) ==> freshL(url.query)
+//@   loop 1 invariant state == StateAuthority ==> runeCount(bufv(buffer)) <= input.pointer + 1
+//@   loop 1 invariant (state == StateSchemeStart || state == StateNoScheme || state == StateSpecialRelativeOrAuthority || state == StatePathOrAuthority
+//@            || state == StateRelative || state == StateRelativeSlash || state == StateSpecialAuthoritySlashes
+//@            || state == StateSpecialAuthorityIgnoreSlashes) ==> bufv(buffer) == ""
+//@   loop 1 invariant (url.path.opaque && len(url.path.p) == 0) ==> state == StatePath
+//@   loop 1 invariant url.path.p == nil || fresh(url.path.p) || (old(url) != nil && arr(url.path.p) == old(arr(url.path.p)))
+//@   loop 1 invariant url.validationErrors == nil || fresh(url.validationErrors) || (old(url) != nil && arr(url.validationErrors) == old(arr(url.validationErrors)))
+//@   loop 1 invariant arr(url.validationErrors) == pre(arr(url.validationErrors)) || freshL(url.validationErrors)
+//@   loop 1 invariant arr(url.path.p) == pre(arr(url.path.p)) || freshL(url.path.p) || (base != nil && arr(url.path.p) == pre(arr(base.path.p)))
+//@   loop 1 invariant state == StatePort ==> (forall k int :: 0 <= k && k < len(bufv(buffer)) ==> specIsDigit(bufv(buffer)[k]))
+//@   loop 1 invariant wfPort(url)
+//@   loop 1 invariant wfSP(url)
+//@   loop 1 invariant wfDistinct(url)
+//@   loop 1 invariant url.host == nil || freshL(url.host) || (base != nil && url.host == base.host) || (old(url) != nil && url.host == pre(url.host))
+//@   loop 1 invariant url.port == nil || freshL(url.port) || (base != nil && url.port == base.port) || (old(url) != nil && url.port == pre(url.port))
+//@   loop 1 invariant url.query == nil || freshL(url.query) || (base != nil && url.query == base.query) || (old(url) != nil && url.query == pre(url.query))
+//@   loop 1 invariant url.fragment == nil || freshL(url.fragment) || (base != nil && url.fragment == base.fragment) || (old(url) != nil && url.fragment == pre(url.fragment))
+//@   loop 1 decreases specRank(state), input.length - input.pointer
+//@   loop 2 modifies url.username, url.password, bb.pointer, bb.eof
+//@   loop 2 invariant cur(bb) && fresh(bb) && bb != input && url != nil
+//@   loop 2 invariant bb.eof || c == bb.runes[bb.pointer]
+//@   loop 2 decreases bb.length - bb.pointer
